@@ -76,6 +76,7 @@ def cond_factors(case, S):
     kap = 1.0
     model = 0.0
     scope = True
+    rbd_model = False
     for md in case["modes"]:
         reg = md["reg"]
         if reg in ("under", "over", "nearcrit", "crit"):
@@ -98,12 +99,14 @@ def cond_factors(case, S):
             bh = 2 * C * h
             if C <= 1e-5 / np.sqrt(h):       # damping ignored (documented cut-off)
                 model = max(model, 2 * C * h * case["nt"])
+                rbd_model = True
             elif C <= 10 * (1e-10 / h) ** (1 / 3):   # damping ignored for displacement only
                 model = max(model, C * h)
+                rbd_model = True
                 kap = max(kap, 1.0 / bh ** 2)
             else:
                 kap = max(kap, 1.0 / bh ** 3)
-    return kap, model, scope
+    return kap, model, scope, rbd_model
 
 
 def oracle(case, R):
@@ -160,6 +163,13 @@ def oracle(case, R):
         M_in, B_in, K_in = (M_in + M_in.T) / 2, (B_in + B_in.T) / 2, (K_in + K_in.T) / 2
         F_in = iP.T @ F
         kapPhi = np.linalg.cond(Phi) ** 2
+        if case.get("pre_eig"):
+            # eigenvectors of (K, M) are accurate to eps*|K|/gap: forces leak between modes by that
+            # angle (matters for soft modes next to rigid-body modes, e.g. static initial conditions)
+            lam_ = np.sort(np.where(S["k"] == 0, 0.0, S["k"] / S["m"]))
+            gaps = np.diff(np.unique(lam_))
+            if len(gaps):
+                kapPhi *= 1.0 + lam_.max() / gaps.min()
         tr = lambda q: Phi @ q                     # noqa: E731
         d0_in = None if d0 is None else Phi @ d0
         v0_in = None if v0 is None else Phi @ v0
@@ -204,7 +214,7 @@ def oracle(case, R):
     sc_d = max(np.abs(dphys).max(), 1e-300)
     sc_v = max(np.abs(vphys).max(), 1e-300)
     sc_a = max(np.abs(aphys).max(), 1e-300)
-    kap_unc, model, scope = cond_factors(case, S)
+    kap_unc, model, scope, rbd_model = cond_factors(case, S)
     coupled = form != "diag"
     if coupled and el:
         # eigenvector conditioning of the elastic state matrix (complex-eigen path)
@@ -237,6 +247,10 @@ def oracle(case, R):
     sc_a = max(sc_a, term_a)
     sc_v = max(sc_v, h * term_a)
     sc_d = max(sc_d, h * h * term_a * 1e-3)
+    if rbd_model:
+        T = h * (nt - 1)
+        sc_v = max(sc_v, T * term_a)
+        sc_d = max(sc_d, T * T * term_a)
 
     def compare(sol, name, kap, extra_rel=0.0):
         for q, ref, sc in (("d", dphys, sc_d), ("v", vphys, sc_v), ("a", aphys, sc_a)):
@@ -247,7 +261,10 @@ def oracle(case, R):
             e = np.abs(got - ref).max() / sc
             if not np.isfinite(e):
                 e = np.inf
-            tol = CTOL * (10.0 if form == "physical" else 1.0) * EPS * nt * kap * kapPhi + 3 * extra_rel
+            # noise floor CTOL for well-conditioned cases; the graded part (kappa >> 1) is measured
+            # to stay below ~10*kappa*eps*nt, so it gets the smaller constant CKAP
+            cfac = (CTOL + CKAP * (kap - 1.0)) * (10.0 if form == "physical" else 1.0)
+            tol = cfac * EPS * nt * kapPhi + 3 * extra_rel
             R.metric(f"{name}_{q}/(eps*nt*kappa)", (e - 3 * extra_rel) / (EPS * nt * kap * kapPhi))
             R.check(e <= tol, f"{name}_{q}",
                     f"form={form} order={order} regs={[m_['reg'] for m_ in case['modes']]} relerr={e:.3e} "
@@ -306,6 +323,7 @@ def oracle(case, R):
         compare(SimpleNamespace(d=s1.d[n:], v=s1.d[:n], a=s1.v[:n]), "SolveExp1", nrmA)
 
 
+CKAP = 100.0
 CTOL = 1000.0    # calibrated: worst normalised error on the unchanged tree ~10 (see evidence)
 
 
@@ -334,7 +352,8 @@ def mode(draw, h, allow, mass_one):
     elif reg == "rbd":
         c1 = 1e-5 / np.sqrt(h)
         c2 = 10 * (1e-10 / h) ** (1 / 3)
-        md["C"] = float(draw(st.sampled_from([c1, c2, 1.0, 10.0])) * draw(st.sampled_from([0.5, 0.99, 1.01, 2.0])))
+        md["C"] = float(draw(st.sampled_from([c1, c1, c2, c2, (c1 * c2) ** 0.5, c1 * 5, c1 * 30, 1.0, 10.0]))
+                        * draw(st.sampled_from([0.5, 0.99, 1.01, 2.0])))
     return md
 
 
